@@ -34,17 +34,17 @@ type recInfo struct {
 }
 
 type GenOpts struct {
-	MaxDepth, MaxFan            int
-	Comments, Padding           bool
-	Markers, Records            bool
-	Edges, Nodes                bool
-	Media, Custom, CustomText   bool
-	BigNums, Times, Remote      bool
-	ChunkArrays                 bool // deliver arrays through begin/chunk/data
-	NonFloat64BigFloats         bool // big floats that are not exactly a float64 (known CBE/CTE finding)
-	NestedMarkers               bool // markers inside marked containers (known validator finding)
-	NegIntForms                 bool // allow ni / i / bi spellings of the same negative key in one map (known finding) -- never on by default
-	Unicode                     bool
+	MaxDepth, MaxFan          int
+	Comments, Padding         bool
+	Markers, Records          bool
+	Edges, Nodes              bool
+	Media, Custom, CustomText bool
+	BigNums, Times, Remote    bool
+	ChunkArrays               bool // deliver arrays through begin/chunk/data
+	NonFloat64BigFloats       bool // big floats that are not exactly a float64 (known CBE/CTE finding)
+	NestedMarkers             bool // markers inside marked containers (known validator finding)
+	NegIntForms               bool // allow ni / i / bi spellings of the same negative key in one map (known finding) -- never on by default
+	Unicode                   bool
 }
 
 func DefaultGenOpts() GenOpts {
@@ -724,6 +724,16 @@ func (g *EvGen) Mutate(es []Ev) []Ev {
 				{K: "mk", Data: []byte("m1")}, {K: "fl", F: 1.5}, {K: "ed"}, {K: "ac", N: 1, B: false}, {K: "ad", Data: []byte{0xff}},
 				{K: "rec", Data: []byte("zz")}, {K: "rt", Data: []byte("zz")}, {K: "pi", N: 1}, {K: "ni", N: 1}, {K: "cm", Data: []byte("c")}, {K: "pad"}}
 			out[p] = repl[g.R.Intn(len(repl))]
+			// media types and custom type codes on both sides of what rules accept
+			switch es[p%len(es)].K {
+			case "media", "mb":
+				bad := []string{"", "a", "i8", "7", "a/", "/b", "a/b/c", "1/b", "a b/c", "é/x", "a/b;c", "A9!#$%&'*+.^_`|~{}-/z{}", "text/plain", "a/é"}
+				out[p] = es[p%len(es)]
+				out[p].S = bad[g.R.Intn(len(bad))]
+			case "cb", "ct", "cbeg":
+				out[p] = es[p%len(es)]
+				out[p].N = []uint64{1 << 32, 1<<32 - 1, 1<<64 - 1, 0}[g.R.Intn(4)]
+			}
 		case 4:
 			out = out[:p]
 		}
